@@ -19,6 +19,7 @@ var c07Books = []absBook{
 
 // "k" is a recipe whose name is a path-prefix of k/r1 and k/r2; "u" of u/v
 var c07Foods = []string{"k/r1", "k/r2", "r0", "u/a&b <c>'d'+e \"f\" 1.5", "cal", "k", "u"}
+
 // the large log also has names with empty path segments ("k/" is a sibling of "k/r1" below "k", not "k" itself)
 var c07FoodsLarge = append(append([]string{}, c07Foods...), "k/", "/k", "k//r1", "Ünï/код/")
 var c07Qty = []float64{1, -2, 0.5}
